@@ -70,6 +70,7 @@ def requests(kind):
     add('Default+new', ['Default{B+new}'], [(DF, DF, [], True), ('', DF, [], True)])
     if not union:
         add('Into', ['Into(u64{,B})'], [(P['Into'] + ' < u64 >', P['Into'] + ' < u64 >', [], True)])
+        add('Into2b', ['Into(u64{,B})', 'Into(W{,B})'], [(P['Into'] + ' < u64 >', P['Into'] + ' < u64 >', [], True), (P['Into'] + ' < W >', P['Into'] + ' < W >', [], True)])
         add('Into2', ['Into(u64{,B})', 'Into(W)'], [(P['Into'] + ' < u64 >', P['Into'] + ' < u64 >', [], True), (P['Into'] + ' < W >', P['Into'] + ' < W >', [], 'auto')])
         add('Deref', ['Deref', 'DerefMut'], [(P['Deref'], None, [], False), (P['DerefMut'], None, [], False)])
     return R
@@ -127,7 +128,7 @@ def generate(tier):
                         markers, markers1 = '', ''
                         if rid == 'Into':
                             markers = '#[educe(Into(u64))] '
-                        if rid == 'Into2':
+                        if rid in ('Into2', 'Into2b'):
                             markers, markers1 = '#[educe(Into(u64))] ', '#[educe(Into(W))] '
                         if rid == 'Deref':
                             markers = '#[educe(Deref, DerefMut)] '
@@ -252,7 +253,7 @@ def check(v, tier, only=None):
                         ftys = ['u8'] if kind == 'enum' else []
                         if rid == 'Copy+Clone/handled' and tr == P['Copy']:
                             ftys = [ctx[5][0], ctx[5][1], 'u8']
-                    if rid in ('Into', 'Into2'):
+                    if rid in ('Into', 'Into2', 'Into2b'):
                         # struct: the marked field; enum: V0's sole field and V1's marked field
                         first = tr.endswith('< u64 >')
                         if kind in ('struct', 'tuple'):
